@@ -46,14 +46,21 @@ TickV(l, v) == Tick(l, Lit(v))
    every sub-form position of the outer one. *)
 
 DerivedKinds == <<"begin", "let", "letstar", "cond", "cond2", "cond3", "case", "case2", "case3", "and", "or", "when", "unless">>
+\* the degenerate shapes: one clause, no clause, one body expression, no binding - each is a rule of its own in an
+\* implementation by rewriting, and is reached by a compound (ticking) key/test only when written directly
+SmallKinds == {"case1e", "case1", "case1a", "case1ea", "cond1", "cond1t", "cond1a", "cond1e", "and0", "and1", "or0", "or1",
+               "when1", "unless1", "begin1", "let0", "letstar0", "letstar1"}
 \* number of sub-form positions (holes) of each template
-Holes(k) == CASE k = "begin" -> 3 [] k = "let" -> 3 [] k = "letstar" -> 3 [] k = "cond" -> 5 [] k = "cond2" -> 3 [] k = "cond3" -> 3
+Holes(k) == CASE k \in {"and0", "or0"} -> 0 [] k \in {"and1", "or1", "begin1", "cond1t", "letstar0", "case1a", "case1ea", "cond1a"} -> 1
+              [] k \in {"case1e", "case1", "cond1", "cond1e", "when1", "unless1", "let0", "letstar1"} -> 2
+              [] k = "begin" -> 3 [] k = "let" -> 3 [] k = "letstar" -> 3 [] k = "cond" -> 5 [] k = "cond2" -> 3 [] k = "cond3" -> 3
               [] k = "case" -> 4 [] k = "case2" -> 3 [] k = "case3" -> 2 [] k = "and" -> 3 [] k = "or" -> 3 [] k = "when" -> 3 [] k = "unless" -> 3
 \* which holes are tests (their truth value is chosen) - the others hold plain values
-TestHoles(k) == CASE k = "cond" -> {1, 3} [] k = "cond2" -> {1, 2} [] k = "cond3" -> {1, 3} [] k = "and" -> {1, 2} [] k = "or" -> {1, 2}
+TestHoles(k) == CASE k \in {"case1e", "case1", "case1a", "case1ea", "cond1", "cond1t", "cond1a", "and1", "or1", "when1", "unless1"} -> {1}
+                  [] k = "cond" -> {1, 3} [] k = "cond2" -> {1, 2} [] k = "cond3" -> {1, 3} [] k = "and" -> {1, 2} [] k = "or" -> {1, 2}
                   [] k = "when" -> {1} [] k = "unless" -> {1} [] k = "case" -> {1} [] k = "case2" -> {1} [] k = "case3" -> {1} [] OTHER -> {}
 \* the values a test hole may take: #f, and two true values one of which is not a boolean
-TestValues(k) == IF k \in {"case", "case2", "case3"} THEN {MkInt(1), MkInt(3), MkInt(5)} ELSE {False, MkInt(0), True}
+TestValues(k) == IF k \in {"case", "case2", "case3", "case1e", "case1", "case1a", "case1ea"} THEN {MkInt(1), MkInt(3), MkInt(5)} ELSE {False, MkInt(0), True}
 
 \* the receiver of a => clause is itself an expression with an effect: it must be evaluated only
 \* when its clause is selected (label l), and then called once (label l + 1)
@@ -74,6 +81,24 @@ Template(k, h, b) ==
     [] k = "or"      -> Or(<<h[1], h[2], h[3]>>)
     [] k = "when"    -> When(h[1], <<h[2], h[3]>>)
     [] k = "unless"  -> Unless(h[1], <<h[2], h[3]>>)
+    [] k = "case1e"  -> CaseElse(h[1], <<>>, <<h[2]>>)
+    [] k = "case1"   -> Case(h[1], <<CClause(<<MkInt(1), MkInt(3)>>, <<h[2]>>)>>)
+    [] k = "case1a"  -> Case(h[1], <<CArrow(<<MkInt(1), MkInt(3)>>, ReceiverFn(b + 8))>>)
+    [] k = "case1ea" -> CaseElseArrow(h[1], <<>>, ReceiverFn(b + 8))
+    [] k = "cond1"   -> Cond(<<Clause(h[1], <<h[2]>>)>>)
+    [] k = "cond1t"  -> Cond(<<Clause(h[1], <<>>)>>)
+    [] k = "cond1a"  -> Cond(<<ArrowClause(h[1], ReceiverFn(b + 8))>>)
+    [] k = "cond1e"  -> CondElse(<<>>, <<h[1], h[2]>>)
+    [] k = "and0"    -> And(<<>>)
+    [] k = "and1"    -> And(<<h[1]>>)
+    [] k = "or0"     -> Or(<<>>)
+    [] k = "or1"     -> Or(<<h[1]>>)
+    [] k = "when1"   -> When(h[1], <<h[2]>>)
+    [] k = "unless1" -> Unless(h[1], <<h[2]>>)
+    [] k = "begin1"  -> Begin(<<h[1]>>)
+    [] k = "let0"    -> Let(<<>>, <<h[1], h[2]>>)
+    [] k = "letstar0" -> LetStar(<<>>, <<h[1]>>)
+    [] k = "letstar1" -> LetStar(<<B("p", h[1])>>, <<Call("list", <<Var("p"), h[2]>>)>>)
 
 \* a leaf: logs its label and returns v
 Leaf(b, i, v) == TickV(b + i, v)
@@ -106,10 +131,10 @@ SingleReading(k, b, asg, name) ==
 
 SinglePrograms ==
   UNION {UNION {{[forms |-> <<InContext(c, Single(k, 0, a))>>, tag |-> <<"single", k, c>>] : a \in Assignments(k)}
-                : c \in {"top", "proc"}} : k \in KindSet}
+                : c \in {"top", "proc"}} : k \in KindSet \cup SmallKinds}
 BinderPrograms ==
   UNION {UNION {{[forms |-> <<Let(<<B(c, Num(55))>>, <<SingleReading(k, 0, a, c)>>)>>, tag |-> <<"binder", k, c>>] : a \in Assignments(k)}
-                : c \in {"x", "temp", "atom-key"}} : k \in KindSet}
+                : c \in {"x", "temp", "atom-key"}} : k \in KindSet \cup SmallKinds}
 NestedPrograms(full) ==
   UNION {UNION {UNION {UNION {
      {[forms |-> <<Nested(ko, ao, p, ki, ai)>>, tag |-> <<"nested", ko, ki>>] : ai \in Assignments(ki)}
